@@ -11,7 +11,7 @@ import (
 func init() {
 	register(Property{ID: "C12", Level: "other", Run: runC12,
 		Technique: "static analysis: must-pass-through path conditions on Core.doAPIConfig*/Core.run/conf.AddPath/PatchPath/RemovePath (go/ssa), who-may-store on Core.conf, no-mutation-through-loaded-pointer rule over the module",
-		Text:      "Decides the atomicity skeleton on all paths: each of the six Core.doAPIConfig* handlers edits a Clone() of the loaded configuration, returns a non-nil configuration only if the edit call and Validate returned nil, and returns that same clone; Core.run calls reloadConf only with that result under err == nil after replying exactly once; reloadConf stores the new configuration (what later reads return); Core.conf is stored only in New and reloadConf; no function of the module mutates the configuration reached through Core.conf.Load()/APIConfigSnapshot() without an intervening Clone; AddPath fails on an existing name, PatchPath/RemovePath on a missing one, ReplacePath stores exactly the given value. Field-exactness of the reflective copyStructFields is not decided (value level).",
+		Text:      "Decides the atomicity skeleton on all paths: each of the six Core.doAPIConfig* handlers edits a Clone() of the loaded configuration, returns a non-nil configuration only if the edit call and Validate returned nil, and returns that same clone; Core.run calls reloadConf only with that result under err == nil after replying exactly once; reloadConf stores the new configuration (what later reads return) and every Control API handler registered with GET under /config/ passes a call of the parent's APIConfigSnapshot() on every path to a response body it writes, so no read is answered from a copy remembered by the API across requests (the core never notifies the API of a change; any API-side invalidation races with reloadConf); Core.conf is stored only in New and reloadConf; no function of the module mutates the configuration reached through Core.conf.Load()/APIConfigSnapshot() without an intervening Clone; AddPath fails on an existing name, PatchPath/RemovePath on a missing one, ReplacePath stores exactly the given value. Field-exactness of the reflective copyStructFields is not decided (value level).",
 		Note:      "trusted: conf.copyStructFields/reflect, Conf.Clone is deep (C11), Validate rebuilds Paths; aliasing is tracked by value description (no pointer analysis)"})
 	addMutants(
 		Mutant{"C12", "patch-live-conf-in-place", "internal/core/core.go",
@@ -40,11 +40,12 @@ func init() {
 const c12clone = "(conf.Conf).Clone((*sync/atomic.Pointer[conf.Conf]).Load($0.conf))"
 
 func runC12(c *Ctx) {
+	defer dumpObls(c)
 	p := c.Main()
 	if p == nil {
 		return
 	}
-	c.Explain = "E1 on the six Core.doAPIConfig* handlers (non-nil result ⇒ edit nil ∧ Validate nil, on a Clone of the loaded conf, returned as is); E1 on Core.run (reloadConf(x) ⇒ x is the handler result ∧ err == nil, reply sent before); E2: Core.conf.Store callers = {New, reloadConf}; E5: no store / mutating-method call whose target derives from Core.conf.Load() or APIConfigSnapshot() without Clone, anywhere in the module; E1 on AddPath/PatchPath/RemovePath/ReplacePath. Not decided: which fields copyStructFields copies (reflective, value level)."
+	c.Explain = "E1 on the six Core.doAPIConfig* handlers (non-nil result ⇒ edit nil ∧ Validate nil, on a Clone of the loaded conf, returned as is); E1 on Core.run (reloadConf(x) ⇒ x is the handler result ∧ err == nil, reply sent before); E2: Core.conf.Store callers = {New, reloadConf}; E5: no store / mutating-method call whose target derives from Core.conf.Load() or APIConfigSnapshot() without Clone, anywhere in the module; E1 on AddPath/PatchPath/RemovePath/ReplacePath; read_is_fresh: handlers = functions behind the handler arguments of (*gin.RouterGroup).GET(path, ...) / Handle(GET, path, ...) in API.Initialize with /config/ in the constant path (bound-method wrappers looked through); target = static calls of a body-writing method of *gin.Context (JSON, Data, String, ...), barrier = a call of a method named APIConfigSnapshot, walked with new helpers inlined. Not decided: which fields copyStructFields copies (reflective, value level)."
 	c.Assume = []string{"Conf.Clone is a deep copy (C11)", "copyStructFields copies exactly the non-nil fields of its source"}
 
 	// "a rejected edit leaves the running configuration unchanged" rests on Clone()
@@ -164,6 +165,9 @@ func runC12(c *Ctx) {
 		ds := retDescs(snap, 0)
 		c.Check("C12.read_returns_current", "Core.apiConfigSnapshot returns Core.conf.Load()", len(ds) == 1 && ds[0] == "(*sync/atomic.Pointer[conf.Conf]).Load($0.conf)", p.Pos(snap.Pos()), joinS(ds))
 	}
+
+	// ---- the API half of "reads return the edit": every configuration read asks the core (prop_r4_c12.go)
+	c12ReadFreshR4(c, p)
 
 	// ---- who may Store Core.conf; nobody mutates the loaded configuration
 	mut := mutatingConfMethods(p)
